@@ -17,6 +17,8 @@ EXTENDS FilesCore
 VARIABLES w, gcs, nup, nmsg, last
 vars == <<w, gcs, nup, nmsg, last>>
 View == <<w, gcs, nup, nmsg>>
+\* topics are interchangeable (Files_life.cfg declares them as model values and uses this symmetry)
+TopicPerms == Permutations(Topics)
 
 Init == /\ w = World0 /\ gcs = 0 /\ nup = 0 /\ nmsg = 0
         /\ last = [op |-> "init"]
@@ -29,7 +31,7 @@ UploadReqs(id) ==
      : b \in ReqBase, sz \in Sizes, kd \in Kinds, lg \in LongVals, na \in NewaccVals, ft \in Faults}
 SlowReqs(id) ==
   {[method |-> "POST", key |-> "valid", kplace |-> "header", cred |-> c, cplace |-> "header",
-    size |-> "small", kind |-> kd, long |-> FALSE, newacc |-> FALSE, fault |-> "none", bytes |-> Content(id), partial |-> Partial(id)]
+    size |-> "small", kind |-> kd, long |-> TRUE, newacc |-> FALSE, fault |-> "none", bytes |-> Content(id), partial |-> Partial(id)]
      : c \in {x \in Creds : CredUser(x) # Anon}, kd \in {x \in Kinds : x \notin {"nofile", "empty"}}}
 DownloadReqs ==
   {[method |-> b.method, key |-> b.key, kplace |-> b.kplace, cred |-> b.cred, cplace |-> b.cplace,
